@@ -817,7 +817,7 @@ class C02(CodecProp):
         return CodecProp.shrink(self, case, rule)
 
     def extra_shards(self, tier, seed):
-        return [("live", tier, seed * 1000 + 500 + i) for i in range(8)]
+        return [("live", tier, seed * 1000 + 500 + i) for i in range(16)]
 
     def run_extra(self, spec, res):
         if spec[0] == "live":
